@@ -278,7 +278,9 @@ PROPS["C01"] = {
     "uses_vsched": True,
     "legs": [rapid("deliver", "eng", "TestDelivery", 1500, 30000, shards=(2, 12)),
              rapid("rand", "sched", "TestDeliveryRandom", 20000, 300000, shards=(2, 12), flavour="sched"),
-             plain("dfs", "sched", "TestDeliveryDFS", flavour="sched")],
+             plain("dfs", "sched", "TestDeliveryDFS", flavour="sched"),
+             rapid("engine", "sched", "TestDeliverySchedules", 3000, 60000, shards=(2, 12), flavour="sched"),
+             rapid("hist", "c01", "TestDeliveryHistories", 2000, 30000, shards=(2, 12))],
 }
 
 PROPS["C10"] = {
@@ -356,6 +358,7 @@ PROPS["C02"] = {
     "legs": [rapid("rand", "sched", "TestSerialRandom", 20000, 300000, shards=(2, 12), flavour="sched"),
              plain("dfs", "sched", "TestSerialDFS", flavour="sched"),
              rapid("engine", "sched", "TestSerialEngine", 4000, 60000, shards=(2, 12), flavour="sched"),
+             rapid("lsched", "sched", "TestSerialSchedules", 3000, 60000, shards=(2, 12), flavour="sched"),
              rapid("hist", "c02", "TestSerialHistories", 3000, 40000, shards=(2, 12)),
              rapid("race", "c02", "TestSerialHistories", 1500, 3000, shards=(2, 8), race=True, tiers=("thorough",))],
 }
